@@ -103,10 +103,105 @@ impl Stakes {
     }
 }
 
+/// The Cardano node as the signer sees it: every query is answered with the state of the chain at
+/// the moment it is served, and the chain may enter the next epoch (new stake distribution) between
+/// two queries of the same state-machine cycle.
+pub struct NodeView {
+    pub inner: Arc<FakeChainObserver>,
+    agg: Arc<RefAgg>,
+    /// stake distribution the chain shows during each epoch
+    table: Vec<Vec<SignerWithStake>>,
+    in_cycle: std::sync::atomic::AtomicBool,
+    queries: std::sync::atomic::AtomicU32,
+    /// (turn after this many queries of the running cycle, only the signer's node notices)
+    armed: std::sync::Mutex<Option<(u32, bool)>>,
+}
+
+impl NodeView {
+    /// the chain enters the next epoch as seen by the signer's node; if `node_only` the aggregator has
+    /// not noticed yet (its clock falls one epoch behind the node, or stops being ahead)
+    pub async fn turn(&self, node_only: bool) {
+        let e = self.inner.next_epoch().await.map(|e| *e).unwrap_or(0);
+        self.inner.set_signers(self.table[e as usize].clone()).await;
+        if node_only {
+            self.agg.with(|st| {
+                if st.skew >= 0 {
+                    st.skew -= 1;
+                }
+            });
+        }
+    }
+
+    async fn served(&self) {
+        use std::sync::atomic::Ordering::SeqCst;
+        if !self.in_cycle.load(SeqCst) {
+            return;
+        }
+        let n = self.queries.fetch_add(1, SeqCst) + 1;
+        let fire = {
+            let mut a = self.armed.lock().unwrap();
+            match *a {
+                Some((after, node_only)) if after == n => {
+                    *a = None;
+                    Some(node_only)
+                }
+                _ => None,
+            }
+        };
+        if let Some(node_only) = fire {
+            self.turn(node_only).await;
+        }
+    }
+}
+
+#[async_trait::async_trait]
+impl mithril_cardano_node_chain::chain_observer::ChainObserver for NodeView {
+    async fn get_current_datums(
+        &self,
+        address: &mithril_cardano_node_chain::entities::ChainAddress,
+    ) -> Result<Vec<mithril_cardano_node_chain::entities::TxDatum>, mithril_cardano_node_chain::chain_observer::ChainObserverError> {
+        let r = self.inner.get_current_datums(address).await;
+        self.served().await;
+        r
+    }
+    async fn get_current_era(&self) -> Result<Option<String>, mithril_cardano_node_chain::chain_observer::ChainObserverError> {
+        let r = self.inner.get_current_era().await;
+        self.served().await;
+        r
+    }
+    async fn get_current_epoch(&self) -> Result<Option<Epoch>, mithril_cardano_node_chain::chain_observer::ChainObserverError> {
+        let r = self.inner.get_current_epoch().await;
+        self.served().await;
+        r
+    }
+    async fn get_current_chain_point(&self) -> Result<Option<ChainPoint>, mithril_cardano_node_chain::chain_observer::ChainObserverError> {
+        let r = self.inner.get_current_chain_point().await;
+        self.served().await;
+        r
+    }
+    async fn get_current_stake_distribution(
+        &self,
+    ) -> Result<Option<mithril_common::entities::StakeDistribution>, mithril_cardano_node_chain::chain_observer::ChainObserverError> {
+        let r = self.inner.get_current_stake_distribution().await;
+        self.served().await;
+        r
+    }
+    async fn get_current_kes_period(
+        &self,
+    ) -> Result<Option<mithril_common::crypto_helper::KesPeriod>, mithril_cardano_node_chain::chain_observer::ChainObserverError> {
+        let r = self.inner.get_current_kes_period().await;
+        self.served().await;
+        r
+    }
+}
+
 /// What stands for the Cardano node and the outside world: survives a restart of the signer.
 #[derive(Clone)]
 pub struct Outside {
+    /// the chain itself (what the harness and the reference aggregator read)
     pub chain: Arc<FakeChainObserver>,
+    /// the chain as served to the signer, query by query
+    pub node: Arc<NodeView>,
     pub immutables: Arc<DumbImmutableFileObserver>,
     pub scanner: Arc<DumbBlockScanner>,
     pub digester: Arc<DumbImmutableDigester>,
@@ -137,6 +232,7 @@ pub struct World {
     pub restarts: u32,
     pub critical_errors: u32,
     pub panics: u32,
+    pub queries_in_last_cycle: u32,
 }
 
 /// polls a future under `catch_unwind`
@@ -187,7 +283,7 @@ async fn build_node(config: &Configuration, o: &Outside) -> Node {
     );
     let retention = config.store_retention_limit.map(|l| l as u64);
 
-    let ticker = Arc::new(MithrilTickerService::new(o.chain.clone(), o.immutables.clone()));
+    let ticker = Arc::new(MithrilTickerService::new(o.node.clone(), o.immutables.clone()));
     let initializers = Arc::new(ProtocolInitializerRepository::new(main_db.clone(), retention));
     let stake_store = Arc::new(StakePoolStore::new(main_db.clone(), retention));
     let era_reader = Arc::new(EraReader::new(o.era_adapter.clone()));
@@ -270,7 +366,7 @@ async fn build_node(config: &Configuration, o: &Outside) -> Node {
     let services = SignerDependencyContainer {
         signers_registration_retriever: o.agg.clone(),
         ticker_service: ticker.clone(),
-        chain_observer: o.chain.clone(),
+        chain_observer: o.node.clone(),
         digester: o.digester.clone(),
         protocol_initializer_store: initializers.clone(),
         single_signer,
@@ -313,14 +409,23 @@ impl World {
         let chain = Arc::new(FakeChainObserver::new(Some(start)));
         let scanner = Arc::new(DumbBlockScanner::new());
         scanner.add_forwards(vec![blocks(1..=START_BLOCK)]);
+        // the reference aggregator knows the chain's stake distribution of every epoch by itself
+        let agg = Arc::new(RefAgg::new(
+            chain.clone(),
+            (0..64u64)
+                .map(|e| (e as i64, stakes_during(fixture, e, mode).into_iter().map(|x| (x.party_id, x.stake)).collect()))
+                .collect(),
+        ));
         let outside = Outside {
-            // the reference aggregator knows the chain's stake distribution of every epoch by itself
-            agg: Arc::new(RefAgg::new(
-                chain.clone(),
-                (0..64u64)
-                    .map(|e| (e as i64, stakes_during(fixture, e, mode).into_iter().map(|x| (x.party_id, x.stake)).collect()))
-                    .collect(),
-            )),
+            node: Arc::new(NodeView {
+                inner: chain.clone(),
+                agg: agg.clone(),
+                table: (0..64u64).map(|e| stakes_during(fixture, e, mode)).collect(),
+                in_cycle: Default::default(),
+                queries: Default::default(),
+                armed: Default::default(),
+            }),
+            agg,
             chain,
             immutables,
             scanner,
@@ -331,7 +436,7 @@ impl World {
             }])),
         };
         let node = build_node(&config, &outside).await;
-        let w = World { dir, config, fixture: fixture.clone(), outside, node: Some(node), mode, restarts: 0, critical_errors: 0, panics: 0 };
+        let w = World { dir, config, fixture: fixture.clone(), outside, node: Some(node), mode, restarts: 0, critical_errors: 0, panics: 0, queries_in_last_cycle: 0 };
         w.show_node_stakes().await;
         w
     }
@@ -365,12 +470,13 @@ impl World {
     }
 
     /// the chain enters the next epoch but only the aggregator notices: the signer's node lags
+    /// (also: an aggregator that was one epoch behind the node catches up)
     pub fn aggregator_ahead(&self) -> bool {
         self.outside.agg.with(|st| {
-            if st.skew != 0 {
+            if st.skew > 0 {
                 false
             } else {
-                st.skew = 1;
+                st.skew += 1;
                 true
             }
         })
@@ -378,7 +484,14 @@ impl World {
 
     /// the signer's node catches up with the epoch the aggregator is already in
     pub async fn node_catches_up(&self) -> bool {
-        if !self.outside.agg.with(|st| std::mem::replace(&mut st.skew, 0) != 0) {
+        if !self.outside.agg.with(|st| {
+            if st.skew == 1 {
+                st.skew = 0;
+                true
+            } else {
+                false
+            }
+        }) {
             return false;
         }
         self.outside.chain.next_epoch().await;
@@ -400,8 +513,30 @@ impl World {
     /// One cycle of the real state machine (its timing loop `run` is never used). A panic of the
     /// node is caught: the process is gone, and (as a process supervisor would) the harness starts it
     /// again on the same data directory.
-    pub async fn tick(&mut self) -> Result<(), String> {
+    /// One cycle during which the chain enters the next epoch right after the `after`-th query the
+    /// signer makes to its node (0: before the first one; if the cycle makes fewer queries: right after
+    /// the cycle). `queries_in_last_cycle` tells how many it made.
+    pub async fn tick_turning(&mut self, turn: Option<(u32, bool)>) -> Result<(), String> {
+        use std::sync::atomic::Ordering::SeqCst;
+        let view = self.outside.node.clone();
+        view.queries.store(0, SeqCst);
+        match turn {
+            Some((0, node_only)) => view.turn(node_only).await,
+            Some(t) => *view.armed.lock().unwrap() = Some(t),
+            None => {}
+        }
+        let start_epoch = self.outside.agg.node_epoch().await;
+        self.outside.agg.with(|st| st.cycle_start_node_epoch = start_epoch);
+        view.in_cycle.store(true, SeqCst);
         let r = CatchUnwind(Box::pin(self.node().machine.cycle())).await;
+        view.in_cycle.store(false, SeqCst);
+        self.queries_in_last_cycle = view.queries.load(SeqCst);
+        let pending = view.armed.lock().unwrap().take();
+        if let Some((_, node_only)) = pending {
+            view.turn(node_only).await;
+        }
+        let now = self.outside.agg.node_epoch().await;
+        self.outside.agg.with(|st| st.cycle_start_node_epoch = now);
         match r {
             Ok(Ok(())) => Ok(()),
             Ok(Err(e)) => {
